@@ -946,6 +946,24 @@ func _panic(n *node) {
 	}
 }
 
+// copyValue returns a copy of v which is not changed by later assignments to
+// the variable v was obtained from. It is used to save the function value and
+// the arguments of a deferred call when the defer statement is executed.
+func copyValue(v reflect.Value) reflect.Value {
+	if v.IsValid() && v.Type() == valueInterfaceType && v.CanInterface() {
+		// The concrete value of an interface value may be a variable too.
+		vi := v.Interface().(valueInterface)
+		vi.value = copyValue(vi.value)
+		return reflect.ValueOf(vi)
+	}
+	if !v.CanAddr() {
+		return v
+	}
+	c := reflect.New(v.Type()).Elem()
+	c.Set(v)
+	return c
+}
+
 func genBuiltinDeferWrapper(n *node, in, out []func(*frame) reflect.Value, fn func([]reflect.Value) []reflect.Value) {
 	next := getExec(n.tnext)
 
@@ -954,7 +972,7 @@ func genBuiltinDeferWrapper(n *node, in, out []func(*frame) reflect.Value, fn fu
 			val := make([]reflect.Value, len(in)+1)
 			inTypes := make([]reflect.Type, len(in))
 			for i, v := range in {
-				val[i+1] = v(f)
+				val[i+1] = copyValue(v(f))
 				inTypes[i] = val[i+1].Type()
 			}
 			outTypes := make([]reflect.Type, len(out))
@@ -1305,9 +1323,9 @@ func call(n *node) {
 		value = genFunctionWrapper(c0)
 		n.exec = func(f *frame) bltn {
 			val := make([]reflect.Value, len(values)+1)
-			val[0] = value(f)
+			val[0] = copyValue(value(f))
 			for i, v := range values {
-				val[i+1] = v(f)
+				val[i+1] = copyValue(v(f))
 			}
 			f.deferred = append([][]reflect.Value{val}, f.deferred...)
 			return tnext
@@ -1590,9 +1608,9 @@ func callBin(n *node) {
 		// Store function call in frame for deferred execution.
 		n.exec = func(f *frame) bltn {
 			val := make([]reflect.Value, l+1)
-			val[0] = value(f)
+			val[0] = copyValue(value(f))
 			for i, v := range values {
-				val[i+1] = getBinValue(getMapType, v, f)
+				val[i+1] = copyValue(getBinValue(getMapType, v, f))
 			}
 			f.deferred = append([][]reflect.Value{val}, f.deferred...)
 			return tnext
